@@ -387,7 +387,13 @@ def r1(ctx):
             if ent is None and "::{closure#" in p:
                 # the same arithmetic moved into a closure of the reviewed function (a loop rewritten with iterator combinators): the
                 # invariant is about the function's data, not about the loop syntax. Only for entries that rest on no local guard.
-                pk = (nice(re.sub(r"(::\{closure#\d+\})+$", "", p)), kind, sig)
+                parent_ = re.sub(r"(::\{closure#\d+\})+$", "", p)
+                if parent_ in prog.absorbed:
+                    # ...of a helper that is itself new (inlined into its caller): the reviewed function is that caller
+                    cs_ = sorted({c_ for c_, callee_ in prog.inlined if callee_ == parent_})
+                    if len(cs_) == 1:
+                        parent_ = re.sub(r"(::\{closure#\d+\})+$", "", cs_[0])
+                pk = (nice(parent_), kind, sig)
                 pe = reviewed.get(pk)
                 if pe is not None and not pe[0] and not pe[2]:
                     ent = pe
